@@ -29,6 +29,8 @@ def plainKind (k : RegKind) : Bool := k != .gpbhi && k != .gpb && k != .sreg
 def finalOp (e : Entry) (lxEnc : Nat) : BitVec 32 :=
   if e.enc == lxEnc then
     e.mainOp ||| opcodeLBySize ((Op.reg (rtypeOf (e.kinds.getD 0 .none)) 0).rmSize ||| (Op.reg (rtypeOf (e.kinds.getD 1 .none)) 0).rmSize)
+  else if e.enc == 0x73 then      -- VexRvm_Wx: W from a 64-bit destination or an 8-byte r/m operand
+    e.mainOp ||| (if e.kinds.getD 0 .none == .gpq || (Op.reg (rtypeOf (e.kinds.getD 2 .none)) 0).rmSize == 8 then kW else 0#32)
   else e.mainOp
 
 def noFix (f : FormOp) : Bool := f.alts.all fun a => match a with | .reg _ (some _) => false | _ => true
@@ -119,7 +121,7 @@ theorem shapeOk3_spec (r : Rule) (f0 f1 f2 : FormOp) (k0 k1 k2 : RegKind) (hops 
 def entryOkRvm (e : Entry) : Bool :=
   match e.rule.ops, e.kinds with
   | [f0, f1, f2], [k0, k1, k2] =>
-    (e.enc == 0x72 || e.enc == 0x75) && (vexRuleOk e.rule 0 && (rowAgreeOk e.rule (finalOp e 0x75) && (e.iflags &&& 0x1000000#32 == 0#32 &&
+    (e.enc == 0x72 || e.enc == 0x75 || e.enc == 0x73) && (vexRuleOk e.rule 0 && (rowAgreeOk e.rule (finalOp e 0x75) && (e.iflags &&& 0x1000000#32 == 0#32 &&
     (f0.role == .reg && (f1.role == .vvvv && (f2.role == .rm && shapeOk3 e.rule f0 f1 f2 k0 k1 k2))))))
   | _, _ => false
 
